@@ -488,6 +488,66 @@ def send_case(play: dict, conn_kind: str, obf: bool, path: str, items: list) -> 
         vloop.close_loop(loop)
 
 
+CONN_TABLES = {'server': ('server', 'response'), 'init': ('peer_init', 'request'), 'peer': ('peer', 'request'),
+               'distributed': ('distributed', 'request')}
+
+
+def connection_decode_sweep(run: Run, play: dict) -> list:
+    """encode -> wire -> decode THROUGH A CONNECTION for every class a connection can receive: the frame of every
+    message class of every reader table (smallest and full value), plain and obfuscated, is handed to the real
+    DataConnection.decode_message_data of the matching connection kind (server, awaiting-init, peer, distributed)
+    and must come back as the message.  Covers what Message.deserialize alone cannot: the glue between the
+    connection and the parsers (de-obfuscation, size checks, the family chosen for the connection)."""
+    from aioslsk.network.connection import ServerConnection, PeerConnection, PeerConnectionState, PeerConnectionType
+    out = []
+    for kind, (fam, d) in CONN_TABLES.items():
+        for obf in (False, True):
+            if kind == 'server':
+                conn = ServerConnection('server.test', 2416, None, obfuscated=obf)
+            else:
+                conn = PeerConnection('10.0.0.9', 40000, None, obfuscated=obf,
+                                      connection_type=PeerConnectionType.DISTRIBUTED if kind == 'distributed' else PeerConnectionType.PEER)
+                if kind != 'init':
+                    conn.connection_state = PeerConnectionState.ESTABLISHED
+            for m in [x for x in play['messages'] if x['family'] == fam and x['dir'] == d]:
+                for mode in ('none', 'full'):
+                    vals = L.gen_message(run.rng, play, m, mode)
+                    try:
+                        obj = L.make_obj(play, m, vals)
+                        frame = obj.serialize()
+                    except Exception:
+                        continue      # reported by the per-class cases
+                    wire = ref_obf_encode(bytes(run.rng.randrange(256) for _ in range(4)), frame) if obf else frame
+                    try:
+                        back = conn.decode_message_data(wire)
+                        prob = None if back == obj else f'decoded as {back!r}'[:200]
+                    except Exception as e:
+                        prob = f'rejected: {type(e).__name__}: {e.__cause__!r}'[:200]
+                    run.case({'conn-decode': [kind, obf, m['name'], vals]}, nontrivial=len(frame) > 4 + m['id_width'], kind=f'conn-decode/{kind}')
+                    if prob:
+                        run.add_finding(Finding(f'connection-decode:{kind}:{m["name"]}',
+                                                f'a valid {len(frame)}-byte {m["name"]} frame is not decoded by a{"n obfuscated" if obf else " plain"} {kind} connection: {prob}',
+                                                {'kind': 'conn-decode', 'conn': kind, 'obf': obf, 'class': m['name'], 'vals': vals},
+                                                observed=prob, expected='the message that was serialised'))
+                    out.append((kind, obf, m['name']))
+    return out
+
+
+def conn_decode_one(play: dict, kind: str, obf: bool, m: dict, vals: list):
+    from aioslsk.network.connection import ServerConnection, PeerConnection, PeerConnectionState, PeerConnectionType
+    if kind == 'server':
+        conn = ServerConnection('server.test', 2416, None, obfuscated=obf)
+    else:
+        conn = PeerConnection('10.0.0.9', 40000, None, obfuscated=obf,
+                              connection_type=PeerConnectionType.DISTRIBUTED if kind == 'distributed' else PeerConnectionType.PEER)
+        if kind != 'init':
+            conn.connection_state = PeerConnectionState.ESTABLISHED
+    obj = L.make_obj(play, m, vals)
+    frame = obj.serialize()
+    wire = ref_obf_encode(b'\x0a\x0b\x0c\x0d', frame) if obf else frame
+    return obj, frame, conn.decode_message_data(wire)
+
+
 def big_message(rng, play: dict, tbl: list, size: int):
     """An in-domain message of the table whose first mandatory string / blob field is inflated so that the
     serialised frame exceeds `size` bytes (-> (message, vals)); None when the table has no such class."""
@@ -733,6 +793,9 @@ def run(run: Run):
                                     '(other clients would read garbage beyond the first differing block)',
                                     {'kind': 'obf', 'key': keyh, 'data': datah}, observed=got.hex()[:300] if got else None, expected=wireh[:300]))
 
+    # --- every receivable class through the real connection-level decoder
+    connection_decode_sweep(run, play)
+
     # --- the real send paths
     sends = send_path_cases(run, play, 1 if run.tier == 'quick' else 8)
 
@@ -793,6 +856,15 @@ def replay(rep: dict) -> int:
         print('decode(encode) == data:', d == data)
         return 0 if (d == data and e == ref_obf_encode(key, data)) else 1
     pm = L.msg_by_name(play)
+    if kind == 'conn-decode':
+        m = pm[wit['class']]
+        try:
+            obj, frame, back = conn_decode_one(play, wit['conn'], wit['obf'], m, wit['vals'])
+        except Exception as e:
+            print(f"{wit['class']} frame on a {wit['conn']} connection (obfuscated={wit['obf']}): decode_message_data raises {type(e).__name__}: {e.__cause__!r}")
+            return 1
+        print('frame:', frame.hex()[:200], '| decoded equal to the message:', back == obj)
+        return 0 if back == obj else 1
     if kind == 'send-path':
         items = [(pm[n], v) for n, v in wit['messages']]
         r = send_case(play, wit['conn'], wit['obf'], wit['path'], items)
